@@ -170,7 +170,15 @@ def rule_cancel(ctx):
     n += 1
     ob = ctx.func('db', 'DB._open_dbs')
     hs = q.calls_resolving_to(ctx, ob, od)
-    okp = len(hs) == 1 and len(hs[0].args) == 4 and norm(hs[0].args[3]) == ob.params[2] and norm(hs[0].args[1]) == ob.params[1]
+    # the flag is followed by role, not by position: the parameter of _open_dbs (positional or keyword-only) that is handed
+    # to History.open_db as its `compacting` argument
+    comp_od = od.params[-1]
+    b = q.bound_args(hs[0], od) if len(hs) == 1 else None
+    flag = b.get(comp_od) if b else None
+    sync_arg = b.get(od.params[2]) if b and len(od.params) > 2 else None
+    ob_params = [p_ for p_ in ob.params + ob.kwonly if p_ != 'self']
+    okp = isinstance(flag, ast.Name) and flag.id in ob_params and isinstance(sync_arg, ast.Name) and sync_arg.id in ob_params \
+        and sync_arg.id != flag.id and not q.assigns(ctx, ob, flag.id)
     ctx.check(okp, 'C14.CANCEL', ctx.key(ob, None, 'passes compacting through'),
               '_open_dbs passes its compacting flag to History.open_db', '_open_dbs does not pass its compacting flag through',
               loc=ctx.loc(ob, ob.node))
@@ -178,7 +186,10 @@ def rule_cancel(ctx):
     for qual, want in (('DB.open_for_sync', 'False'), ('DB.open_for_serving', 'False'), ('DB.open_for_compacting', 'True')):
         g = ctx.func('db', qual)
         cs = q.calls_resolving_to(ctx, g, ob)
-        okf = len(cs) >= 1 and all(len(c.args) == 2 and norm(c.args[1]) == want for c in cs)
+        okf = len(cs) >= 1 and okp
+        for c in cs:
+            bo = q.bound_args(c, _with_kwonly(ob))
+            okf = okf and bo is not None and flag is not None and flag.id in bo and norm(bo[flag.id]) == want
         ctx.check(okf, 'C14.CANCEL', ctx.key(g, None, 'compacting flag'),
                   f'{qual} opens with compacting={want}',
                   f'{qual} does not open with compacting={want}: ' + ('an abandoned compaction is resumed later on top of rows indexed meanwhile'
@@ -186,6 +197,10 @@ def rule_cancel(ctx):
                   loc=ctx.loc(g, g.node))
         n += 1
     return n
+
+
+def _with_kwonly(f):
+    return f          # q.bound_args binds keywords by name; keyword-only parameters need no positional slot
 
 
 def rule_handover(ctx):
